@@ -391,6 +391,11 @@ def export_graph2(inst, timeout=1800):
     return (roots[0] if len(roots) == 1 else None), states, edges, st
 
 
+def vloop_owner(h):
+    from harness.vloop import handle_owner
+    return handle_owner(h)
+
+
 def _coarse(p):
     return {'phase': 'draining', 'done': p['done'], 'res': p['res'], 'sw': p['sw']}
 
@@ -454,12 +459,15 @@ def real_proj2(ex):
         runs[str(r)] = p
     Capture.managers[:] = saved
     ready = []
-    for o in loop.ready_owners():
+    for h in loop.ready_handles():
+        o = vloop_owner(h)
         if isinstance(o, asyncio.Task):
             r = o.get_context().get(rtm.CUR_RUN, 0)
             ready.append('%d:*' % r if r in quiet else '%d:%s%s' % (r, tname(o.get_name()), '!' if o.cancelling() else ''))
         else:
-            ready.append('0:timer')
+            # a timer callback: it belongs to the run in whose context the sleep was started
+            r = h._context.get(rtm.CUR_RUN, 0) if h._context is not None else 0
+            ready.append('%d:*' % r if r in quiet else '%d:timer' % r)
     return {'runs': runs, 'ready': _sort_quiet(ready)}
 
 
@@ -483,7 +491,8 @@ class _LoopView:
         return [g for g in self._loop.pending_gates() if (g.info or (0,))[0] == self._r]
 
     def pending_timers(self):
-        return self._loop.pending_timers()
+        return [(w, h) for (w, h) in self._loop.pending_timers()
+                if (h._context.get(rtm.CUR_RUN, 0) if h._context is not None else 0) == self._r]
 
     def __getattr__(self, k):
         return getattr(self._loop, k)
@@ -563,6 +572,11 @@ def replay_graph2(prog, overlap=True, max_paths=100000, collect=False):
                             err = 'no pending gate %s of run %s' % (lab[2], lab[1])
                     elif lab[0] == 'start':
                         ex.apply(('start', lab[1]))
+                    elif lab[0] == 'tick':
+                        if ex.loop.pending_timers():
+                            ex.apply(('timer',))
+                        else:
+                            err = 'no pending timer'
                     hist.append(list(lab))
                     if not drift:
                         mp = model_proj2(states[dst])
